@@ -17,7 +17,9 @@
    TokenStream on every run).  Places where the Rust code interpolates an
    Option<TokenStream> WITHOUT `?` (newtype inner 58-66, external Item variant 222-225)
    produce an empty argument list; places where a `?` sits inside a filter_map closure
-   (struct members 397-404, flattened members 439) silently DROP the member.
+   (struct members, flattened members) silently DROP the member.  Mirrors the tree after
+   dc9ac49 (one-element tuple `( e , )`) and 31ec69c (flattened member named by an identifier;
+   [FLit] is no longer produced and only kept so that a regression would be expressible).
 
    [expr_typed] is the Rust typing of such an expression at a type id (what rustc
    accepts: `(3_i64)` is not a `(i64,)`, integer literals must fit their suffix, a
@@ -44,7 +46,7 @@ Inductive expr :=
 | ESome (e : expr)
 | EBox (e : expr)
 | EVec (es : list expr)                      (* vec![..] *)
-| ETuple (es : list expr)                    (* ( e , e )   -- no trailing comma *)
+| ETuple (es : list expr)                    (* ( e , e ); one element: ( e , )  (fix dc9ac49) *)
 | EArray (es : list expr)                    (* [ e , e ] *)
 | EMap (kvs : list (expr * expr))            (* [(k, v), ..].into_iter().collect() *)
 | EUnit
@@ -108,7 +110,7 @@ Section Det.
             | None => RPanic
             | Some (DStruct _ _ _ _) | Some (DOption _) | Some (DMap _ _) =>
                 do oe <- optional (rec (p_ty p) extra);
-                ROk (option_map (fun e => (FLit (p_name p), e)) oe)
+                ROk (option_map (fun e => (FId (p_name p), e)) oe)
             | Some _ => RPanic
             end
         | _ => ROk None
@@ -339,7 +341,7 @@ Fixpoint expr_typed (T : space) (fuel : nat) (e : expr) (t : id) {struct e} : bo
   | ESome x, Some (DOption u) => expr_typed T fuel x u
   | EBox x, Some (DBox u) => expr_typed T fuel x u
   | EVec es, Some (DVec u) | EVec es, Some (DSet u) => typed_all es u
-  | ETuple es, Some (DTuple ts) => negb (Nat.eqb (length es) 1) && typed_list es ts
+  | ETuple es, Some (DTuple ts) => typed_list es ts
   | EArray es, Some (DArray u n) => N.eqb (N.of_nat (length es)) n && typed_all es u
   | EMap kvs, Some (DMap k u) =>
       (fix go (kvs : list (expr * expr)) : bool :=
@@ -590,6 +592,7 @@ Fixpoint toks (e : expr) {struct e} : list string :=
    | ESome x => path ["std"; "option"; "Option"; "Some"] ++ ["("] ++ toks x ++ [")"]
    | EBox x => path ["std"; "boxed"; "Box"; "new"] ++ ["("] ++ toks x ++ [")"]
    | EVec es => ["vec"; "!"; "["] ++ commas es ++ ["]"]
+   | ETuple [x] => ["("] ++ toks x ++ [","; ")"]
    | ETuple es => ["("] ++ commas es ++ [")"]
    | EArray es => ["["] ++ commas es ++ ["]"]
    | EMap kvs =>
@@ -701,19 +704,18 @@ Definition res_eqb_kind (a b : res kind) : bool :=
   | _, _ => false
   end.
 
-(* flags: F1 (String arm laxity changes the verdict) unit tuple1 intoob nz0 flit native fill emptyctor *)
+(* flags: unit tuple1 intoob nz0 flit native fill emptyctor *)
 Definition class_flags (T : space) (fuel : nat) (t : id) (v : json) : string :=
-  let f1 := negb (res_eqb_kind (validate_value T fuel t v) (validate_strict T fuel t v)) in
   let unit := match get_det T t with Some DUnit => true | _ => false end in
   let fl := fun p => match output_value T fuel t v with ROk e => expr_any p e | _ => false end in
-  String.concat "" (map show_bool [f1; unit; fl is_tuple1; fl is_int_oob; fl is_nz_zero; fl has_flit;
+  String.concat "" (map show_bool [unit; fl is_tuple1; fl is_int_oob; fl is_nz_zero; fl has_flit;
                                    fl is_native_parse; fl is_default_fill; fl is_empty_ctor]).
 
 (* one line per probe for the correspondence check:
    validate | output | typed | eval | approx *)
-Definition probe (T : space) (fuel : nat) (t : id) (v : json) : string :=
+Definition probe (re : ustring -> ustring -> bool) (T : space) (fuel : nat) (t : id) (v : json) : string :=
   let o := output_value T fuel t v in
-  show_vres (validate_value T fuel t v) ^^ " | " ^^ show_ores o ^^ " | " ^^
+  show_vres (validate_value re T fuel t v) ^^ " | " ^^ show_ores o ^^ " | " ^^
   match o with
   | ROk e => show_bool (expr_typed T fuel e t) ^^ " | " ^^ show_opt_json (eval_expr T e) ^^ " | " ^^
              match eval_expr T e with Some r => show_bool (approx v r) | None => "-" end
